@@ -1,5 +1,7 @@
 //! Shared drivers: deterministic keys, recording key wrappers, small enumerators.
 
+pub mod msg;
+
 use std::sync::{Arc, Mutex, OnceLock};
 
 use pgp::{
